@@ -149,6 +149,44 @@ def optimizeWith (stp : Opts → St → Bool → St × Status) (o : Opts) (l : L
 
 def optimize (o : Opts) (l : List Bool) : Option (St × Option Bool) := optimizeWith step o l
 
+/-! ### several `optimize()` calls on one object
+
+`self.__results` (model: `acc`) is an attribute and survives from one call to the next; theta and
+the increment are re-initialised from the options, the log is per call. -/
+
+/-- the state in which a call starts on an object whose `self.__results` holds `prev` -/
+def initFrom (o : Opts) (prev : Option Rat) : St := { init o with acc := prev }
+
+def optimizeFromWith (stp : Opts → St → Bool → St × Status) (o : Opts) (prev : Option Rat) (l : List Bool) :
+    Option (St × Option Bool) :=
+  if o.thetaStart ≤ 1 then some (run stp o (initFrom o prev) l) else none
+
+def optimizeFrom (o : Opts) (prev : Option Rat) (l : List Bool) : Option (St × Option Bool) :=
+  optimizeFromWith step o prev l
+
+/-- consecutive calls (options and outcome list per call); `self.__results` is carried along -/
+def seqFrom (stp : Opts → St → Bool → St × Status) :
+    Option Rat → List (Opts × List Bool) → List (Option (St × Option Bool))
+  | _, [] => []
+  | prev, (o, l) :: rest =>
+    let r := optimizeFromWith stp o prev l
+    r :: seqFrom stp (match r with | some (s, _) => s.acc | none => prev) rest
+
+def optimizeSeq (runs : List (Opts × List Bool)) : List (Option (St × Option Bool)) := seqFrom step none runs
+
+/-- variant of the loop body (seeded change c18h): "the very first solve failed" is detected by
+    "no results stored yet" instead of `theta == theta_start` -/
+def stepByResults (o : Opts) (s : St) (ok : Bool) : St × Status :=
+  let s := push o s ok
+  if ok then
+    let s := accept s
+    if s.theta ≥ 1 then (s, .finished true) else guard (advance s) true
+  else
+    if s.acc.isNone then (s, .finished false)
+    else
+      let s := stepBack s
+      if s.delta < o.deltaMin then (s, .finished false) else guard (advance s) false
+
 /-- theta of the last accepted solve recorded in a log (newest first) -/
 def lastAcc : List Solve → Option Rat
   | [] => none
